@@ -365,9 +365,19 @@ def r7(F, R):
         up = b.calls_to(lambda c: path_ends(c["path"], "Hamiltonian::update_stats_options"))
         key = b.path + ":marker"
         site = "%s @%s" % (b.path, b.loc())
-        if len(ex) == 1 and len(up) == 1 and b.dominates(ex[0][0], up[0][0]):
-            # the marker returned is stored back into the options used next time
-            R.ok("C16-R7", key, site, "update_stats_options runs after extract_stats")
+        rng_ = K.path_count_range(b, {up[0][0]: 1}, ex[0][0]) if len(ex) == 1 and len(up) == 1 else None
+        stored = False
+        if len(up) == 1:
+            d = up[0][1]["dest"]
+            stored = any(isinstance(e, dict) and e.get("n") == "stats_options" for e in d["p"]) or \
+                any(st["k"] == "assign" and any(isinstance(e, dict) and e.get("n") == "stats_options" for e in st["pl"]["p"]) and
+                    st["rv"]["k"] == "use" and st["rv"]["op"]["k"] in ("copy", "move") and st["rv"]["op"]["pl"]["l"] == d["l"]
+                    for blk in b.blocks for st in blk["stmts"])
+        if len(ex) == 1 and len(up) == 1 and b.dominates(ex[0][0], up[0][0]) and rng_ == (1, 1) and stored:
+            R.ok("C16-R7", key, site, "update_stats_options runs after extract_stats on every path and its result is stored back into stats_options")
+        elif len(ex) == 1 and len(up) == 1 and b.dominates(ex[0][0], up[0][0]):
+            R.bad("C16-R7", key, site, "the update-event marker is advanced only on some paths after extract_stats (%s) or not stored back (stored=%s): "
+                  "a transformation update would be announced again on later draws" % (rng_, stored))
         else:
             R.bad("C16-R7", key, site, "extract_stats calls: %d, update_stats_options calls: %d, order not established: an update event would be reported never or twice" % (len(ex), len(up)))
     for b in F.trait_method_impls("Transformation", "next_stats_options"):
